@@ -66,9 +66,22 @@ func (c *RawHTTPResponder) GetHeaders() http.Header {
 	return c.response.Header
 }
 
+// Reports whether a response with this status and body is sent without a message body:
+// 1xx, 204 and 304 never have one, and http.NoBody stands for "headers only" (the answer to HEAD).
+func isBodiless(status int, body io.Reader) bool {
+	return body == http.NoBody || status < 200 || status == http.StatusNoContent || status == http.StatusNotModified
+}
+
 func (c *RawHTTPResponder) writeResponse() error {
-	// If Content-Length is unknown, we must either use chunked encoding or close the connection.
-	if c.response.ContentLength < 0 {
+	if isBodiless(c.response.StatusCode, c.response.Body) {
+		// Nothing follows the headers, so there is nothing to frame: a chunked encoding would put a terminating
+		// chunk on the connection that the client does not read and then takes for the start of the next response.
+		c.response.Body = http.NoBody
+		if c.response.ContentLength < 0 {
+			c.response.ContentLength = 0
+		}
+	} else if c.response.ContentLength < 0 {
+		// If Content-Length is unknown, we must either use chunked encoding or close the connection.
 		c.response.TransferEncoding = []string{"chunked"}
 	}
 
@@ -86,7 +99,13 @@ func (c *RawHTTPResponder) Write(status int, body io.Reader) (written int64, err
 	resp := c.response
 
 	var read int
-	resp.Body = io.NopCloser(countingreader.New(body, &read))
+	if body == http.NoBody {
+		resp.Body = http.NoBody
+		// Headers only: tell the writer that the Content-Length describes a body that is not sent
+		resp.Request = &http.Request{Method: http.MethodHead}
+	} else {
+		resp.Body = io.NopCloser(countingreader.New(body, &read))
+	}
 	resp.StatusCode = status
 	c.parseAndSetContentLength()
 
